@@ -402,6 +402,81 @@ let ctxrun ic =
     | _ -> failwith ("ctx: bad line " ^ line)
   done with End_of_file -> ())
 
+
+(* ---------------- C09: typed serialisation ---------------- *)
+let split_top (s : string) : string list =   (* split at top-level commas *)
+  let out = ref [] and cur = Buffer.create 16 and d = ref 0 in
+  St.iter (fun c -> match c with
+    | '(' | '[' | '{' -> incr d; Buffer.add_char cur c
+    | ')' | ']' | '}' -> decr d; Buffer.add_char cur c
+    | ',' when !d = 0 -> out := Buffer.contents cur :: !out; Buffer.clear cur
+    | _ -> Buffer.add_char cur c) s;
+  if Buffer.length cur > 0 then out := Buffer.contents cur :: !out;
+  L.rev !out
+
+let rec ty_of (s : string) : Typed.ty =
+  let args () = let i = St.index s '(' in split_top (St.sub s (i + 1) (St.length s - i - 2)) in
+  let head = try St.sub s 0 (St.index s '(') with Not_found -> s in
+  match head with
+  | "unit" -> Typed.TUnit | "bool" -> Typed.TBool | "i32" -> Typed.TI32 | "f64" -> Typed.TF64 | "str" -> Typed.TStr
+  | "opt" -> Typed.TOpt (ty_of (L.hd (args ()))) | "vec" -> Typed.TVec (ty_of (L.hd (args ()))) | "map" -> Typed.TMap (ty_of (L.hd (args ())))
+  | "tuple" -> Typed.TTuple (L.map ty_of (args ()))
+  | "arr" -> (match args () with [n; t] -> Typed.TArr (n_of_int (int_of_string n), ty_of t) | _ -> failwith "arr")
+  | "int" -> Typed.TInt IntDeser.(match L.hd (args ()) with "i8" -> I8 | "i16" -> I16 | "i32" -> I32 | "i64" -> I64 | "u8" -> U8 | "u16" -> U16
+                                   | "u32" -> U32 | "u64" -> U64 | "usize" -> Usize | "isize" -> Isize | _ -> failwith "int type")
+  | _ -> failwith ("ty_of " ^ s)
+
+let rec value_of (s : string) : Typed.value =
+  let n = St.length s in
+  let rest = St.sub s 1 (n - 1) in
+  match St.get s 0 with
+  | 'u' -> Typed.VUnit | 'n' -> Typed.VNone
+  | 'b' -> Typed.VBool (rest = "1") | 'i' -> Typed.VI32 (z_of_int (int_of_string rest))
+  | 'f' -> Typed.VF64 (n_of_hex rest) | 's' -> Typed.VStr (nlist_of_hex rest)
+  | 'I' -> if St.get rest 0 = '-' then Typed.VInt (z_of_hexmag true (St.sub rest 1 (St.length rest - 1))) else Typed.VInt (z_of_hexmag false rest)
+  | 'S' -> Typed.VSome (value_of (St.sub s 2 (n - 3)))
+  | 'V' -> Typed.VVec (L.map value_of (split_top (St.sub s 2 (n - 3))))
+  | 'T' -> Typed.VTuple (L.map value_of (split_top (St.sub s 2 (n - 3))))
+  | 'M' -> Typed.VMap (L.map (fun e -> let i = St.index e ':' in (nlist_of_hex (St.sub e 0 i), value_of (St.sub e (i + 1) (St.length e - i - 1)))) (split_top (St.sub s 2 (n - 3))))
+  | _ -> failwith ("value_of " ^ s)
+
+let rec show_value (v : Typed.value) : string =
+  match v with
+  | Typed.VUnit -> "u" | Typed.VNone -> "n" | Typed.VBool b -> if b then "b1" else "b0"
+  | Typed.VI32 z -> (match z with Z0 -> "i0" | Zpos p -> "i" ^ string_of_int (int_of_n (Npos p)) | Zneg p -> "i-" ^ string_of_int (int_of_n (Npos p)))
+  | Typed.VF64 b -> "f" ^ hex_of_n b | Typed.VStr s -> "s" ^ hex_of_nlist s
+  | Typed.VSome x -> "S(" ^ show_value x ^ ")"
+  | Typed.VVec l -> "V[" ^ St.concat "," (L.map show_value l) ^ "]"
+  | Typed.VTuple l -> "T[" ^ St.concat "," (L.map show_value l) ^ "]"
+  | Typed.VMap l -> "M{" ^ St.concat "," (L.sort compare (L.map (fun (k, x) -> hex_of_nlist k ^ ":" ^ show_value x) l)) ^ "}"
+  | Typed.VInt z -> "I" ^ hex_of_z z
+
+let c09 ic =
+  let id = ref 0 and w = ref (n_of_int 64) in
+  let trap = false in
+  let de t wt = match Typed.deser !w t wt with Some v -> "OK " ^ show_value v | None -> "ERR" in
+  (try while true do
+    let line = input_line ic in
+    match St.split_on_char ' ' line with
+    | ["CASE"; k; ww] -> id := int_of_string k; w := n_of_int (int_of_string ww)
+    | ["END"] | [""] | [] -> ()
+    | ["SER"; t; v] ->
+        let v = value_of v in ignore (ty_of t);
+        let (r, (_, bytes)) = Typed.serialize !w trap v in
+        Printf.printf "M %d SER %s %s JSON 1\n" !id (match r with Writer.WOk -> "0" | _ -> "1") (digest bytes);
+        Printf.printf "S %d SER 0 %s JSON 1\n" !id (digest (Tree.enc_tree (Typed.tree_of v)))
+    | ["RT"; t; v] ->
+        let v = value_of v and t = ty_of t in
+        Printf.printf "M %d %s\n" !id (de t (Typed.canon (Typed.tree_of v)));
+        Printf.printf "S %d OK %s\n" !id (show_value v)
+    | ["DE"; t; doc] ->
+        let t = ty_of t in
+        let r = (match (try Some (wire_of_bytes (Array.of_list (bytes_of_hex doc))) with Malformed -> None) with
+                 | Some wt -> de t wt | None -> "MALFORMED") in
+        Printf.printf "M %d %s\n" !id r; Printf.printf "S %d %s\n" !id r
+    | _ -> failwith ("c09: bad line " ^ line)
+  done with End_of_file -> ())
+
 let () =
   let comp = Sys.argv.(1) in
   let ic = if Array.length Sys.argv > 2 then open_in Sys.argv.(2) else stdin in
@@ -410,6 +485,7 @@ let () =
   | "c02" | "c03" -> c03 ic
   | "dectree" -> dectree ic
   | "c12" | "c13" | "c14" -> ctxrun ic
+  | "c09" -> c09 ic
   | "c05" -> c05 ic
   | "c06" -> c06 ic
   | "c10" -> c10 ic
